@@ -129,12 +129,14 @@ __CPROVER_ensures((RV == NNG_OK && g_k < URL_STORE(src)) ==> U8P((*dstp)->u_buff
     ;
 
 /* ---- nni_url_default_port -------------------------------------------------
- * Only memory safety and frame (used as a replaced callee by the parser
- * unit): any NUL-terminated scheme string, nothing assigned. */
+ * Memory safety and frame for any NUL-terminated scheme string of any length
+ * (every loop is bounded by the port table: 12 entries, names <= 6 chars);
+ * a non-zero result is a port of the table. */
 uint16_t nni_url_default_port(const char *scheme)
     /* clang-format off */
-__CPROVER_requires(__CPROVER_is_fresh(scheme, STR_ROOM(scheme)) && STR_ROOM(scheme) >= 1 && STR_ROOM(scheme) <= URL_STR_MAX && scheme[STR_ROOM(scheme) - 1] == 0)
+__CPROVER_requires(g_n < URL_STR_MAX && __CPROVER_is_fresh(scheme, g_n + 1) && scheme[g_n] == 0)
 __CPROVER_assigns()
+__CPROVER_ensures(RV == 0 || RV == 9418 || RV == 70 || RV == 80 || RV == 443 || RV == 22 || RV == 23)
     /* clang-format on */
     ;
 
